@@ -75,6 +75,8 @@ end module shapes
 def expr(e):
     if e["k"] == "atom":
         return e["f"]
+    if e["k"] == "group":
+        return f"({expr(e['a1'][0])} + 1.0) * 2.0"
     if e["k"] == "call1":
         return f"{e['f']}({expr(e['a1'][0])})"
     return f"{e['f']}({expr(e['a1'][0])}, {expr(e['a2'][0])})"
@@ -105,6 +107,11 @@ def stmt_lines(form, args):
         "format": ["10 format (i3, f(2))"],
         "arithif": ["if (x) 10, 20, 30"],
         "cgoto": ["go to (10, 20) i"],
+        "cgoto_label": ["5 go to (10, 20), i"],
+        "cgoto_if": [f"if ({a[0]} > 0) go to (10, 20), i"] if a else [],
+        "cgoto_one": ["goto (10, 20) i"],
+        "impdo": [f"print *, ({a[0]}, i = 1, 3)"] if a else [],
+        "callgroup": [f"call p(({a[0]} - 1.0) * 0.5)"] if a else [],
         "blockdecl": ["block", "  integer :: q(3)", f"  q(1) = int({a[0]})", "end block"] if a else [],
         "tbcall": ["call c%reset()"],
         "tbfunc": ["x = c%area()"],
@@ -200,6 +207,8 @@ def evaluate(case):
                 bad = f"recorded calls {sorted(names)}, invoked {want}" + (f" (spurious {extra})" if extra else "") + (f" (missing {missing})" if missing else "") + (f" (twice {dup})" if dup else "")
                 if extra == ["q"] and not missing and not dup:
                     tag = "block-decl"
+                elif form["n"] == "cgoto_if" and not names and not extra and not dup:
+                    tag = "cgoto-line-skipped"          # as built: a line holding a computed GO TO is not scanned at all
             elif any(unresolved):
                 bad = f"calls {names} recorded but not resolved to the procedures of module lib"
                 tag = "unresolved"
@@ -245,10 +254,12 @@ def run(tier, seed, ck: Check):
         cases = [c for c in cases if zlib.crc32(json.dumps([c["form"]["n"], c["args"]], sort_keys=True).encode()) % 2 == seed % 2 or c["form"]["slots"] == 0]
     for c, res in zip(cases, pool.pmap(evaluate, cases, chunksize=40)):
         ck.count(len(c["units"]) * len(c["styles"]))
-        if c["callset"] or c["form"]["n"] in ("format", "arithif", "cgoto", "writefmt", "blockdecl"):
+        if c["callset"] or c["form"]["n"] in ("format", "arithif", "cgoto", "cgoto_label", "cgoto_if", "cgoto_one", "writefmt", "blockdecl"):
             ck.nontrivial_case(json.dumps([c["form"]["n"], c["args"]], sort_keys=True))
         for r_ in res:
             if r_["tag"] == "block-decl" and ck.known_finding("C08-F1"):
+                continue
+            if r_["tag"] == "cgoto-line-skipped" and ck.known_finding("C08-F2"):
                 continue
             ck.violation("calls", {"form": c["form"], "args": c["args"], "unit": r_["unit"], "style": r_["style"], "callset": c["callset"]},
                          detail=f"[{r_['unit']}/layout {r_['style']}] {stmt_lines(c['form'], c['args'])!r}: {r_['bad']}", extra={"source": r_["src"]})
@@ -270,6 +281,8 @@ def replay_file(path, ck):
     for r_ in res:
         if r_["tag"] == "block-decl" and ck.known_finding("C08-F1"):
             continue
+        if r_["tag"] == "cgoto-line-skipped" and ck.known_finding("C08-F2"):
+            continue
         ck.violation("calls", c, detail=r_["bad"], extra={"source": r_["src"]})
 
 
@@ -283,7 +296,7 @@ def main():
             run(a.tier, a.seed, ck)
     except tlc.TLCFailure as e:
         return machinery_failure(PROP, str(e))
-    return ck.finish(rule="cases = statements of spec/Calls.tla (23 statement forms x expression trees of depth <= 2 over user functions, intrinsics, an "
+    return ck.finish(rule="cases = statements of spec/Calls.tla (33 statement forms x expression trees of depth <= 2 over user functions, intrinsics, an "
                           "array, scalars and a literal containing call-like text) rendered in program / module subroutine / module function and in "
                           "plain / continued / ';'-joined layout; non-trivial iff the statement invokes something or is a form that must not be "
                           "scanned; distinct by (form, expressions)", exhaustive=(a.tier == "thorough"))
